@@ -1030,10 +1030,16 @@ func analyse(cfgName string, env []string, patterns []string, wantPkgs map[strin
 			for _, ins := range b.Instrs {
 				if ci, ok := ins.(ssa.CallInstruction); ok {
 					c := ci.Common()
-					if g := c.StaticCallee(); g != nil && a.inRepo[g] {
-						callers[g] = append(callers[g], c)
-						callerFn[c] = f
-						vcCallers[g] = append(vcCallers[g], ci)
+					if g := c.StaticCallee(); g != nil {
+						// a call to an instance of a generic function is a call site of the generic body that is analysed
+						if o := g.Origin(); o != nil && !a.inRepo[g] {
+							g = o
+						}
+						if a.inRepo[g] {
+							callers[g] = append(callers[g], c)
+							callerFn[c] = f
+							vcCallers[g] = append(vcCallers[g], ci)
+						}
 					}
 					for _, arg := range c.Args {
 						if g, ok := arg.(*ssa.Function); ok {
@@ -1341,10 +1347,7 @@ func analyse(cfgName string, env []string, patterns []string, wantPkgs map[strin
 		if len(f.Blocks) == 0 {
 			continue
 		}
-		if tp := f.TypeParams(); tp != nil && tp.Len() > 0 && len(f.TypeArgs()) == 0 {
-			// the uninstantiated body of a generic function is never executed; its instances are analysed (InstantiateGenerics)
-			continue
-		}
+
 		isInit := f.Name() == "init" || strings.HasPrefix(f.Name(), "init#") || onceInit[f]
 		ord := map[string]int{}
 		next := func(kind string) int { ord[kind]++; return ord[kind] }
